@@ -1003,12 +1003,17 @@ class RTCSctpTransport(AsyncIOEventEmitter):
         self.__log_debug("< %s", chunk)
 
         # common
-        if isinstance(chunk, DataChunk):
-            await self._receive_data_chunk(chunk)
+        if isinstance(chunk, (DataChunk, ForwardTsnChunk)):
+            # the peer's initial TSN is only known once its INIT / INIT ACK
+            # was received, data cannot be placed before that
+            if self._last_received_tsn is None:
+                return
+            if isinstance(chunk, DataChunk):
+                await self._receive_data_chunk(chunk)
+            else:
+                await self._receive_forward_tsn_chunk(chunk)
         elif isinstance(chunk, SackChunk):
             await self._receive_sack_chunk(chunk)
-        elif isinstance(chunk, ForwardTsnChunk):
-            await self._receive_forward_tsn_chunk(chunk)
         elif isinstance(chunk, HeartbeatChunk):
             heartbeat_ack = HeartbeatAckChunk()
             heartbeat_ack.params = chunk.params
